@@ -32,3 +32,24 @@ Proof.
   exact (proj1 (proj2 (value_is_max_over_admissible m p t last vnext sigma Hd)) gamma' Hin' Hf').
 Qed.
 Print Assumptions C02_accepted_row_is_feasible_maximiser.
+
+(* ---- about the regenerated forward loop of lcm.simulate.simulate (Gen/Simulate.v) ---------------- *)
+From LCM Require Import Model.RandomChoice Gen.Simulate Proofs.C04_SimulateLoop.
+(* the decision recorded for period t is taken at the states the agents are in at t, with period t's *)
+(* own grids, policy function and state indexers, and with the solved array of period t+1 (none in    *)
+(* the last period) -- for arbitrary decision procedures and components                               *)
+Theorem C02_code_decision_of_period_uses_its_own_components_and_the_next_array : forall (E : sim_env) t d,
+  (t < sim_n_periods E)%nat ->
+  nth t (sim_results E) d
+  = (fst (sim_decision E (fst (sim_at E t)) t), snd (sim_decision E (fst (sim_at E t)) t), fst (sim_at E t)).
+Proof. exact bundled_result_of_period. Qed.
+Print Assumptions C02_code_decision_of_period_uses_its_own_components_and_the_next_array.
+
+Theorem C02_code_lookup_array_is_the_next_periods : forall (E : sim_env),
+  (forall t d, (S t < length (sim_solved E))%nat -> nth t (sim_lookup E) None = Some (nth (S t) (sim_solved E) d)) /\
+  (sim_solved E <> nil -> nth (length (sim_solved E) - 1) (sim_lookup E) None = None) /\
+  (sim_solved E <> nil -> sim_n_periods E = length (sim_solved E)).
+Proof.
+  intros E. split; [exact (bundled_lookup_next E)|split; [exact (bundled_no_lookup_last E)|exact (bundled_n_periods E)]].
+Qed.
+Print Assumptions C02_code_lookup_array_is_the_next_periods.
